@@ -4,6 +4,7 @@ package main
 
 import (
 	"context"
+	"encoding/binary"
 	"errors"
 	"fmt"
 	"sort"
@@ -179,20 +180,32 @@ type recMig struct {
 }
 
 type fullRun struct {
-	mu        sync.Mutex
-	store     *faultStore
-	inMigrate bool
-	modelTick int // ticks in the runner model's sense: runner commits + Before + Migrate calls
-	cancelTk  int // model tick during which the context was cancelled (never if not)
-	crashTk   int
-	obs       map[int]*observed
-	image     *memory.Database
-	calls     []string
-	btImages  []string // layout of the chain data whenever blocktransactions.Migrate starts
-	height    uint64
+	mu         sync.Mutex
+	store      *faultStore
+	inMigrate  bool
+	modelTick  int // ticks in the runner model's sense: runner commits + Before + Migrate calls
+	cancelTk   int // model tick during which the context was cancelled (never if not)
+	crashTk    int
+	obs        map[int]*observed
+	image      *memory.Database
+	calls      []string
+	btImages   []string // layout of the chain data whenever blocktransactions.Migrate starts
+	sdlNext    uint64   // checkpoint statedifflength.Before received
+	sdlPre     []string // abstract state when statedifflength.Migrate was called (nil: not called)
+	sdlPost    []string // … when it returned (nil: the run was cut by the crash image before)
+	sdlRet     string
+	sdlIdx     int
+	crashInSdl bool
+	height     uint64
 }
 
 func (m *recMig) Before(st []byte) error {
+	if m.idx == m.fr.sdlIdx {
+		m.fr.sdlNext = 0
+		if len(st) == 8 {
+			m.fr.sdlNext = binary.BigEndian.Uint64(st)
+		}
+	}
 	m.fr.mu.Lock()
 	m.fr.modelTick++
 	m.fr.obs[m.idx] = &observed{}
@@ -214,7 +227,23 @@ func (m *recMig) Migrate(ctx context.Context, database db.KeyValueStore, n *netw
 	if m.idx == 0 {
 		fr.btImages = append(fr.btImages, layoutOf(database, fr.height))
 	}
+	if m.idx == fr.sdlIdx {
+		fr.sdlPre = sdlAbstract(database, fr.height)
+	}
 	st, err := m.inner.Migrate(ctx, database, n, l)
+	if m.idx == fr.sdlIdx {
+		fr.sdlPost = sdlAbstract(database, fr.height)
+		switch {
+		case err != nil:
+			fr.sdlRet = "failed"
+		case st == nil:
+			fr.sdlRet = "done"
+		case len(st) == 8:
+			fr.sdlRet = fmt.Sprintf("rerun:%d", binary.BigEndian.Uint64(st))
+		default:
+			fr.sdlRet = "rerun:?"
+		}
+	}
 	fr.mu.Lock()
 	fr.inMigrate = false
 	o := fr.obs[m.idx]
@@ -258,6 +287,10 @@ type fullOutcome struct {
 	commits int
 	hang    bool
 	btImgs  []string
+	// statedifflength observation of this start
+	sdlNext         uint64
+	sdlPre, sdlPost []string
+	sdlRet          string
 }
 
 // realFullStart runs NewRunner + Run with the real migrations on (a copy of) d.
@@ -270,7 +303,7 @@ func realFullStart(d *memory.Database, height uint64, sp fullStart) fullOutcome 
 	}
 	ctx, cancel := context.WithCancel(context.Background())
 	defer cancel()
-	fr := &fullRun{store: store, obs: map[int]*observed{}, cancelTk: never, crashTk: never, height: height}
+	fr := &fullRun{store: store, obs: map[int]*observed{}, cancelTk: never, crashTk: never, height: height, sdlIdx: 3}
 	store.hook = func(n int, fs *faultStore) {
 		fr.mu.Lock()
 		defer fr.mu.Unlock()
@@ -284,6 +317,7 @@ func realFullStart(d *memory.Database, height uint64, sp fullStart) fullOutcome 
 		if sp.CrashAt > 0 && n == sp.CrashAt && fr.image == nil {
 			fr.crashTk = fr.modelTick
 			fr.image = fs.image()
+			fr.crashInSdl = fr.inMigrate && fr.sdlPre != nil && fr.sdlPost == nil
 		}
 	}
 	reg, regS := fullRegistry(sp.Prune, sp.HeadState, func(i int, m migration.Migration) migration.Migration {
@@ -320,6 +354,11 @@ func realFullStart(d *memory.Database, height uint64, sp fullStart) fullOutcome 
 	out.commits = store.commits
 	out.obs = fr.obs
 	out.btImgs = fr.btImages
+	out.sdlNext, out.sdlPre, out.sdlPost, out.sdlRet = fr.sdlNext, fr.sdlPre, fr.sdlPost, fr.sdlRet
+	if fr.image != nil && fr.sdlPre != nil && (fr.sdlPost == nil || fr.crashInSdl) {
+		// the process died inside statedifflength.Migrate: the image is what it left
+		out.sdlPost, out.sdlRet = sdlAbstract(fr.image, height), "crashed"
+	}
 	if fr.image != nil {
 		out.crashed = true
 		out.after = fr.image
@@ -469,7 +508,13 @@ func (h *harness) fullHistoryCase(hist fullHistory, family string) {
 					msg += fmt.Sprintf(" (migration %d failed: %s)", i, ob.errText)
 				}
 			}
-			res.Violate(lib.Violation{Sig: "upgrade-fails-after-interruption", What: msg, Replay: hist})
+			sig := "upgrade-fails-after-interruption"
+			if ob := o.obs[1]; ob != nil && ob.errKind == "o" && strings.Contains(ob.errText, "running stager") && strings.Contains(ob.errText, "history at block") {
+				// the defect demonstrated deterministically by prunerRestoreCrash
+				sig = "historyprunner-rerun-fails-after-death-in-restore-phase"
+			}
+			res.Hit("oracle:" + sig)
+			res.Violate(lib.Violation{Sig: sig, What: msg, Replay: hist})
 			return
 		}
 		if !o.crashed && o.result == "ok" {
@@ -496,6 +541,7 @@ func (h *harness) fullHistoryCase(hist fullHistory, family string) {
 }
 
 func (h *harness) compareFullStart(hist fullHistory, si int, o fullOutcome) {
+	h.compareSDL(hist, si, o)
 	ans := h.bt.ask(o.line)
 	h.res.Compared(1)
 	disk, _, _, _ := readDisk(o.after)
@@ -590,6 +636,7 @@ func (h *harness) fullAll() {
 	if d1, err := pr.build(); err == nil {
 		tw := realFullStart(d1, pr.Chain.height(), fullStart{Prune: true, HeadState: true, Inflate: true})
 		h.res.HitN("full-prune-commits", tw.commits)
+		h.prunerRestoreCrash(pr, "prune")
 		h.fullHistoryCase(fullHistory{Spec: pr, Starts: []fullStart{{Prune: true, HeadState: true}}}, "prune-undisturbed")
 		step := 1
 		if h.f.Tier == "quick" {
@@ -603,5 +650,166 @@ func (h *harness) fullAll() {
 	n := h.f.Scale(40, 800)
 	for i := 0; i < n; i++ {
 		h.fullHistoryCase(h.genFullHistory(h.r.Fork(uint64(5000000+i))), "rand")
+	}
+}
+
+// ---- history pruner: death during the restore phase ------------------------------------------
+
+type prunerReplay struct {
+	Spec fullSpec `json:"spec"`
+	What string   `json:"what"`
+}
+
+func bucketEmpty(d *memory.Database, b db.Bucket) bool {
+	it, err := d.NewIterator(b.Key(), true)
+	if err != nil {
+		return true
+	}
+	defer it.Close()
+	return !it.First()
+}
+
+// prunerRestoreCrash: one undisturbed upgrade with the history pruner enabled, an image after every
+// commit; the first image in which the live history buckets are empty while the scratch namespace is
+// populated is the database a process leaves behind when it dies during the pruner's restore phase
+// (independent of goroutine scheduling). The upgrade is restarted on that image.
+func (h *harness) prunerRestoreCrash(fs fullSpec, family string) {
+	d0, err := fs.build()
+	if err != nil {
+		return
+	}
+	height := fs.Chain.height()
+	work := d0.Copy()
+	store := newFaultStore(work)
+	var img *memory.Database
+	store.hook = func(_ int, s *faultStore) {
+		if img != nil {
+			return
+		}
+		if bucketEmpty(s.Database, db.DeprecatedContractStorageHistory) && bucketEmpty(s.Database, db.DeprecatedContractNonceHistory) &&
+			bucketEmpty(s.Database, db.DeprecatedContractClassHashHistory) && !bucketEmpty(s.Database, db.Temporary) {
+			img = s.image()
+		}
+	}
+	reg, _ := fullRegistry(true, false, func(_ int, m migration.Migration) migration.Migration { return m })
+	runner, err := migration.NewRunner(reg, store, &networks.Sepolia, log.NewNopZapLogger())
+	if err != nil || hungOnce.Load() {
+		return
+	}
+	var runErr error
+	if !lib.WithDeadline(30*time.Second, func() { runErr = runner.Run(context.Background()) }) {
+		hungOnce.Store(true)
+		return
+	}
+	h.res.Case(family+"|pruner-restore-crash|"+fs.Chain.Layout, true)
+	if runErr != nil || img == nil {
+		h.res.Hit("pruner-restore-image:none")
+		return
+	}
+	h.res.Hit("pruner-restore-image")
+	o := realFullStart(img, height, fullStart{Prune: true})
+	rp := prunerReplay{fs, "upgrade with prune-mode; image after the first commit that leaves the live history buckets (14,15,16) empty and the scratch namespace populated; restart the upgrade on that image"}
+	if o.hang {
+		h.res.Violate(lib.Violation{Sig: "upgrade-hangs", What: "restart after death in the pruner's restore phase does not return", Replay: rp})
+		return
+	}
+	if o.result != "ok" {
+		msg := ""
+		for i, ob := range o.obs {
+			if ob.errKind == "o" {
+				msg = fmt.Sprintf("migration %d: %s", i, ob.errText)
+			}
+		}
+		h.res.Hit("oracle:historyprunner-rerun-fails-after-death-in-restore-phase")
+		h.res.Violate(lib.Violation{Sig: "historyprunner-rerun-fails-after-death-in-restore-phase",
+			What: "the process died while the history pruner was restoring the kept history from its scratch copy (live history buckets already wiped); " +
+				"every later start fails: " + msg, Replay: rp})
+		return
+	}
+	tw := realFullStart(d0, height, fullStart{Prune: true})
+	if same, why := sameDump(dump(o.after), dump(tw.after)); !same {
+		h.res.Violate(lib.Violation{Sig: "upgrade-final-db-differs-from-undisturbed-upgrade", What: "after death in the pruner's restore phase: " + why, Replay: rp})
+	}
+	h.checkFullFinal(fullHistory{Spec: fs}, o.after, true, false, nil)
+}
+
+// ---- statedifflength: every observed Migrate call must be a transition of the Lean model -------
+
+// sdlAbstract renders the chain as `<records present>:<|state diff|>:<stored StateDiffLength>` per block.
+func sdlAbstract(d db.KeyValueReader, height uint64) []string {
+	out := make([]string, height+1)
+	for b := uint64(0); b <= height; b++ {
+		bc, err1 := core.GetBlockCommitmentByBlockNum(d, b)
+		su, err2 := core.GetStateUpdateByBlockNum(d, b)
+		if err1 != nil || err2 != nil || su.StateDiff == nil {
+			out[b] = "0:0:0"
+			continue
+		}
+		out[b] = fmt.Sprintf("1:%d:%d", su.StateDiff.Length(), bc.StateDiffLength)
+	}
+	return out
+}
+
+func (h *harness) compareSDL(hist fullHistory, si int, o fullOutcome) {
+	if o.sdlPre == nil || o.sdlPost == nil || hist.Spec.Chain.NoHeight {
+		return
+	}
+	height := len(o.sdlPre) - 1
+	if a := h.bt.ask(fmt.Sprintf("sdl.set %d %s", height, strings.Join(o.sdlPre, " "))); a != "ok" {
+		h.res.Mismatch(lib.Mismatch{Sig: "sdl.set-rejected", Model: a})
+		return
+	}
+	// start = max(checkpoint, oldest retained)
+	start := int(o.sdlNext)
+	for b, t := range o.sdlPre {
+		if strings.HasPrefix(t, "1:") {
+			if b > start {
+				start = b
+			}
+			break
+		}
+	}
+	tok := "P"
+	switch {
+	case o.sdlRet == "crashed":
+		bits := []byte{}
+		for b := start; b <= height; b++ {
+			if o.sdlPre[b] != o.sdlPost[b] {
+				for len(bits) < b-start {
+					bits = append(bits, '0')
+				}
+				bits = append(bits, '1')
+			}
+		}
+		if len(bits) == 0 {
+			bits = []byte{'-'}
+		}
+		tok = "C*:" + string(bits)
+	case strings.HasPrefix(o.sdlRet, "rerun:"):
+		var n int
+		fmt.Sscanf(o.sdlRet, "rerun:%d", &n)
+		tok = fmt.Sprintf("P%d", n-start)
+	}
+	ans := h.bt.ask(fmt.Sprintf("sdl.migrate %d %s", o.sdlNext, tok))
+	h.res.Compared(1)
+	h.res.Hit("sdl-transition:" + strings.SplitN(o.sdlRet, ":", 2)[0])
+	want := o.sdlRet + " " + strings.Join(o.sdlPost, " ")
+	if ans != want {
+		h.res.Mismatch(lib.Mismatch{Sig: "statedifflength-transition-not-allowed-by-model", Input: map[string]any{
+			"history": hist, "start": si, "checkpoint": o.sdlNext, "pre": o.sdlPre, "step": tok}, Model: ans, Impl: want})
+	}
+	// oracle on the real code: a returned checkpoint never runs ahead of the committed blocks
+	if strings.HasPrefix(o.sdlRet, "rerun:") {
+		var n int
+		fmt.Sscanf(o.sdlRet, "rerun:%d", &n)
+		for b := 0; b < n && b <= height; b++ {
+			f := strings.Split(o.sdlPost[b], ":")
+			if f[0] == "1" && f[1] != f[2] {
+				h.res.Violate(lib.Violation{Sig: "statedifflength-checkpoint-ahead-of-committed-blocks",
+					What:   fmt.Sprintf("Migrate returned checkpoint %d but block %d still has StateDiffLength %s (state diff has %s entries)", n, b, f[2], f[1]),
+					Replay: hist})
+				break
+			}
+		}
 	}
 }
